@@ -3,6 +3,7 @@
 T1_MODULES = {
     "C17": ["vt.contracts.syntactic"],
     "C16": ["vt.contracts.syntactic"],
+    "C15": ["vt.contracts.diskdict_effects"],
     "C13": ["vt.contracts.syntactic"],
     "C01": ["vt.contracts.legs_rules"],
     "C02": ["vt.contracts.legs_rules", "vt.contracts.syntactic"],
